@@ -72,41 +72,53 @@ Qed.
 
 (** *** soundness, for every provider, every IDNA oracle, both settings, both origin kinds *)
 Section Sound.
-  Variables (allow : bool) (prov : bytes -> option bytes) (puny : bytes -> bool).
+  Variables (allow : bool) (prov : bytes -> option bytes) (puny : bytes -> bool) (to_ascii : bytes -> option bytes).
 
-  Lemma valid_continue x : assert_valid_rp_id allow prov puny x = None ->
-    x <> LOCALHOST /\ prov x <> None /\ decode_host puny x = true.
+  (** the provider accepted the canonical ASCII form of [r] *)
+  Definition accepted_ascii (r : bytes) : Prop := exists a, to_ascii r = Some a /\ prov a <> None.
+
+  Lemma is_registrable_spec x : is_registrable prov puny to_ascii x = true <->
+    decode_host puny x = true /\ accepted_ascii x.
+  Proof.
+    unfold is_registrable, accepted_ascii. rewrite andb_true_iff. split.
+    - intros [Hd H]. split; [exact Hd|]. destruct (to_ascii x) as [a|]; [|discriminate].
+      exists a. split; [reflexivity|]. destruct (prov a); [discriminate|discriminate].
+    - intros [Hd (a & Ea & Hp)]. split; [exact Hd|]. rewrite Ea. destruct (prov a); [reflexivity|congruence].
+  Qed.
+
+  Lemma valid_continue x : assert_valid_rp_id allow prov puny to_ascii x = None ->
+    x <> LOCALHOST /\ accepted_ascii x /\ decode_host puny x = true.
   Proof.
     unfold assert_valid_rp_id, not_registrable. destruct (beq_spec x LOCALHOST) as [->|Hne].
     - destruct allow; discriminate.
-    - destruct (decode_host puny x); cbn [andb negb]; [|discriminate].
-      destruct (prov x); cbn [negb]; [|discriminate]. intros _. repeat split; auto. discriminate.
+    - destruct (is_registrable prov puny to_ascii x) eqn:E; cbn [negb]; [|discriminate].
+      apply is_registrable_spec in E as [Hd Ha]. intros _. auto.
   Qed.
 
-  Lemma valid_break_ok x r : assert_valid_rp_id allow prov puny x = Some (inl r) ->
+  Lemma valid_break_ok x r : assert_valid_rp_id allow prov puny to_ascii x = Some (inl r) ->
     allow = true /\ x = LOCALHOST /\ r = LOCALHOST.
   Proof.
     unfold assert_valid_rp_id. destruct (beq_spec x LOCALHOST) as [->|Hne].
     - destruct allow; [|discriminate]. intros H. injection H as <-. auto.
-    - destruct (not_registrable prov puny x); discriminate.
+    - destruct (not_registrable prov puny to_ascii x); discriminate.
   Qed.
 
   Theorem assert_domain_sound o rp r :
-    assert_domain allow prov puny o rp = inl r ->
+    assert_domain allow prov puny to_ascii o rp = inl r ->
     exists h, host_of o = Some h /\ effective o rp = Some r /\ boundary3 h r /\
       (localhost_exception allow o r \/
-       ((is_web o = true -> eq_ignore_ascii_case (scheme_of o) HTTPS = true) /\ prov r <> None)).
+       ((is_web o = true -> eq_ignore_ascii_case (scheme_of o) HTTPS = true) /\ accepted_ascii r)).
   Proof.
     destruct o as [scheme [h|]|h]; cbn [assert_domain assert_web_rp_id assert_android_rp_id host_of is_web scheme_of].
     - (* web *)
       assert (Hstep : forall x, boundary3 h x -> (x = LOCALHOST -> h = LOCALHOST) ->
-        match assert_valid_rp_id allow prov puny x with
+        match assert_valid_rp_id allow prov puny to_ascii x with
         | Some res => res
         | None => if negb (eq_ignore_ascii_case scheme HTTPS) then inr UnprotectedOrigin else inl x
         end = inl r ->
         r = x /\ (localhost_exception allow (Web scheme (Some h)) r \/
-                  ((true = true -> eq_ignore_ascii_case scheme HTTPS = true) /\ prov r <> None))).
-      { intros x Hb Hloc H. destruct (assert_valid_rp_id allow prov puny x) as [[r'|e]|] eqn:Ev.
+                  ((true = true -> eq_ignore_ascii_case scheme HTTPS = true) /\ accepted_ascii r))).
+      { intros x Hb Hloc H. destruct (assert_valid_rp_id allow prov puny to_ascii x) as [[r'|e]|] eqn:Ev.
         - injection H as <-. apply valid_break_ok in Ev as (Ha & -> & ->). split; [reflexivity|].
           left. repeat split; auto. cbn [host_of]. f_equal. apply Hloc. reflexivity.
         - discriminate.
@@ -124,10 +136,10 @@ Section Sound.
         split; [reflexivity|]. split; [left; reflexivity|exact Hr].
     - intros H. discriminate.
     - (* android *)
-      assert (Hstep : forall x, (if not_registrable prov puny x then inr InvalidRpId else inl x) = inl r ->
-                r = x /\ prov r <> None).
-      { intros x. unfold not_registrable. destruct (decode_host puny x); cbn [andb negb]; [|discriminate].
-        destruct (prov x) eqn:Ep; cbn [negb]; [|discriminate]. intros H. injection H as <-. split; [reflexivity|congruence]. }
+      assert (Hstep : forall x, (if not_registrable prov puny to_ascii x then inr InvalidRpId else inl x) = inl r ->
+                r = x /\ accepted_ascii r).
+      { intros x. unfold not_registrable. destruct (is_registrable prov puny to_ascii x) eqn:E; cbn [negb]; [|discriminate].
+        apply is_registrable_spec in E as [_ Ha]. intros H. injection H as <-. split; [reflexivity|exact Ha]. }
       intros H. exists h. split; [reflexivity|]. unfold assert_android_rp_id in H.
       destruct rp as [x|]; cbn [effective host_of]; cbv beta zeta in H.
       + destruct (is_suffix_at_label_boundary h x) eqn:Eb; cbn [negb] in H; [|discriminate].
@@ -137,34 +149,35 @@ Section Sound.
         split; [reflexivity|]. split; [left; reflexivity|]. right. split; [discriminate|exact Hp].
   Qed.
 
-  (** a provider that refuses names with an empty label (the trait's documented input is a domain name)
-      leaves only true label boundaries *)
+  (** a provider that refuses names with an empty label, asked about an ASCII form that keeps a leading
+      dot (the idna crate converts label by label), leaves only true label boundaries *)
   Theorem assert_domain_sound_label_boundary o rp r :
     (forall x, has_empty_label x = true -> prov x = None) ->
-    assert_domain allow prov puny o rp = inl r ->
+    (forall x a, to_ascii x = Some a -> starts_with_dot x = true -> has_empty_label a = true) ->
+    assert_domain allow prov puny to_ascii o rp = inl r ->
     exists h, host_of o = Some h /\ effective o rp = Some r /\ boundary h r /\
       (localhost_exception allow o r \/
-       ((is_web o = true -> eq_ignore_ascii_case (scheme_of o) HTTPS = true) /\ prov r <> None)).
+       ((is_web o = true -> eq_ignore_ascii_case (scheme_of o) HTTPS = true) /\ accepted_ascii r)).
   Proof.
-    intros Hrej H. destruct (assert_domain_sound o rp r H) as (h & Hh & He & Hb & Hr).
+    intros Hrej Hdotkeep H. destruct (assert_domain_sound o rp r H) as (h & Hh & He & Hb & Hr).
     exists h. split; [exact Hh|]. split; [exact He|]. split; [|exact Hr].
     destruct Hb as [Hb|[Hb|[Hdot _]]]; [left; exact Hb|right; exact Hb|].
-    destruct Hr as [(_ & _ & -> & Hl)|[_ Hp]].
+    destruct Hr as [(_ & _ & -> & Hl)|[_ (a & Ea & Hp)]].
     - left. congruence.
-    - exfalso. apply Hp, Hrej, starts_with_dot_empty_label, Hdot.
+    - exfalso. apply Hp, Hrej. exact (Hdotkeep r a Ea Hdot).
   Qed.
 
   (** the converse on well-formed input: nothing else is needed for acceptance *)
   Theorem assert_domain_complete o rp h r :
     host_of o = Some h -> effective o rp = Some r -> boundary h r ->
     (is_web o = true -> eq_ignore_ascii_case (scheme_of o) HTTPS = true) ->
-    prov r <> None -> decode_host puny r = true -> r <> LOCALHOST ->
-    assert_domain allow prov puny o rp = inl r.
+    accepted_ascii r -> decode_host puny r = true -> r <> LOCALHOST ->
+    assert_domain allow prov puny to_ascii o rp = inl r.
   Proof.
     intros Hh He Hb Hs Hp Hd Hne.
-    assert (Hnr : not_registrable prov puny r = false).
-    { unfold not_registrable. rewrite Hd. destruct (prov r); [reflexivity|congruence]. }
-    assert (Hv : assert_valid_rp_id allow prov puny r = None).
+    assert (Hnr : not_registrable prov puny to_ascii r = false).
+    { unfold not_registrable. rewrite (proj2 (is_registrable_spec r) (conj Hd Hp)). reflexivity. }
+    assert (Hv : assert_valid_rp_id allow prov puny to_ascii r = None).
     { unfold assert_valid_rp_id. destruct (beq_spec r LOCALHOST); [congruence|]. rewrite Hnr. reflexivity. }
     assert (Hnl : beq r LOCALHOST = false) by (destruct (beq_spec r LOCALHOST); congruence).
     destruct o as [scheme [h'|]|h']; cbn [host_of is_web scheme_of] in *; try discriminate;
@@ -178,9 +191,9 @@ Section Sound.
   Qed.
 End Sound.
 
-Theorem assert_domain_complete_localhost prov puny scheme rp :
+Theorem assert_domain_complete_localhost prov puny to_ascii scheme rp :
   rp = None \/ rp = Some LOCALHOST ->
-  assert_domain true prov puny (Web scheme (Some LOCALHOST)) rp = inl LOCALHOST.
+  assert_domain true prov puny to_ascii (Web scheme (Some LOCALHOST)) rp = inl LOCALHOST.
 Proof. intros [->| ->]; reflexivity. Qed.
 
 (** *** the default provider *)
@@ -192,34 +205,56 @@ Proof.
   destruct (psl_etld1 RULES x); reflexivity.
 Qed.
 
-(** the premise of [assert_domain_sound_label_boundary] holds for the shipped list *)
+(** the first premise of [assert_domain_sound_label_boundary] holds for the shipped list *)
 Theorem default_provider_rejects_empty_labels x : has_empty_label x = true -> default_provider x = None.
 Proof. intros H. rewrite default_provider_spec. unfold psl_etld1. rewrite H. reflexivity. Qed.
 
-(** what the default provider accepts is a registrable domain under the publicsuffix.org algorithm on
-    the shipped rule file (IDN rules in their punycode form included): no empty label, strictly more
-    labels than its public suffix, hence not itself a public suffix *)
-Theorem assert_domain_registrable_default allow puny o rp r :
-  assert_domain allow default_provider puny o rp = inl r ->
-  localhost_exception allow o r \/
-  (has_empty_label r = false /\
-   (psl_len beq RULES (dom_labels r) < length (dom_labels r))%nat /\
-   psl_is_suffix RULES r = false /\
-   exists e, psl_etld1 RULES r = Some e).
+(** [a] is a registrable domain under the publicsuffix.org algorithm on the shipped rule file (IDN rules
+    in their punycode form included): no empty label, strictly more labels than its public suffix, hence
+    not itself a public suffix *)
+Definition registrable_name (a : bytes) : Prop :=
+  has_empty_label a = false /\
+  (psl_len beq RULES (dom_labels a) < length (dom_labels a))%nat /\
+  psl_is_suffix RULES a = false /\
+  exists e, psl_etld1 RULES a = Some e.
+
+Lemma default_accepts_registrable a : default_provider a <> None -> registrable_name a.
 Proof.
-  intros H. destruct (assert_domain_sound allow default_provider puny o rp r H) as (h & _ & _ & _ & [Hl|[_ Hp]]).
-  - left. exact Hl.
-  - right. rewrite default_provider_spec in Hp. destruct (psl_etld1 RULES r) as [e|] eqn:E; [|congruence].
-    pose proof (psl_etld1_some RULES r e E) as (He & Hlt & _).
-    split; [exact He|]. split; [exact Hlt|]. split; [|exists e; reflexivity].
-    unfold psl_is_suffix. rewrite He. cbn [negb andb]. apply Nat.leb_gt. exact Hlt.
+  intros Hp. rewrite default_provider_spec in Hp. destruct (psl_etld1 RULES a) as [e|] eqn:E; [|congruence].
+  pose proof (psl_etld1_some RULES a e E) as (He & Hlt & _).
+  split; [exact He|]. split; [exact Hlt|]. split; [|exists e; exact E].
+  unfold psl_is_suffix. rewrite He. cbn [negb andb]. apply Nat.leb_gt. exact Hlt.
 Qed.
 
-Theorem assert_domain_sound_default allow puny o rp r :
-  assert_domain allow default_provider puny o rp = inl r ->
+(** what the default provider lets through: the canonical ASCII form of the RP ID is registrable, so an
+    upper-case or Unicode spelling of a public suffix is refused like the suffix itself *)
+Theorem assert_domain_registrable_default allow puny to_ascii o rp r :
+  assert_domain allow default_provider puny to_ascii o rp = inl r ->
+  localhost_exception allow o r \/ exists a, to_ascii r = Some a /\ registrable_name a.
+Proof.
+  intros H. destruct (assert_domain_sound allow default_provider puny to_ascii o rp r H) as (h & _ & _ & _ & [Hl|[_ (a & Ea & Hp)]]).
+  - left. exact Hl.
+  - right. exists a. split; [exact Ea|]. apply default_accepts_registrable, Hp.
+Qed.
+
+(** for an RP ID that is its own ASCII form (lower-case ASCII, punycode) this is about the RP ID itself *)
+Theorem assert_domain_registrable_default_ascii allow puny to_ascii o rp r :
+  to_ascii r = Some r ->
+  assert_domain allow default_provider puny to_ascii o rp = inl r ->
+  localhost_exception allow o r \/ registrable_name r.
+Proof.
+  intros Hr H. destruct (assert_domain_registrable_default allow puny to_ascii o rp r H) as [Hl|(a & Ea & Ha)].
+  - left. exact Hl.
+  - right. rewrite Hr in Ea. injection Ea as <-. exact Ha.
+Qed.
+
+Theorem assert_domain_sound_default allow puny to_ascii o rp r :
+  (forall x a, to_ascii x = Some a -> starts_with_dot x = true -> has_empty_label a = true) ->
+  assert_domain allow default_provider puny to_ascii o rp = inl r ->
   exists h, host_of o = Some h /\ effective o rp = Some r /\ boundary h r /\
     (localhost_exception allow o r \/
-     ((is_web o = true -> eq_ignore_ascii_case (scheme_of o) HTTPS = true) /\ default_provider r <> None)).
+     ((is_web o = true -> eq_ignore_ascii_case (scheme_of o) HTTPS = true) /\
+      accepted_ascii default_provider to_ascii r)).
 Proof. apply assert_domain_sound_label_boundary. exact default_provider_rejects_empty_labels. Qed.
 
 (** *** label boundaries as labels: [r]'s labels are the last labels of [h] *)
@@ -293,26 +328,30 @@ Proof.
   - unfold custom_provider in H. destruct (custom_ok r); [reflexivity|congruence].
 Qed.
 
-Theorem oracle_on_model allow pk puny o rp :
-  c01_ok allow pk o rp (res_code (assert_domain allow (provider_of pk) puny o rp)) = true.
+Theorem oracle_on_model allow pk puny to_ascii o rp canon :
+  (forall r a, effective o rp = Some r -> to_ascii r = Some a ->
+     a = canon /\ (starts_with_dot r = true -> has_empty_label a = true)) ->
+  c01_ok allow pk o rp canon (res_code (assert_domain allow (provider_of pk) puny to_ascii o rp)) = true.
 Proof.
-  destruct (assert_domain allow (provider_of pk) puny o rp) as [r|e] eqn:E; [|reflexivity].
+  intros Hcanon.
+  destruct (assert_domain allow (provider_of pk) puny to_ascii o rp) as [r|e] eqn:E; [|reflexivity].
   cbn [res_code]. unfold c01_ok.
-  destruct (assert_domain_sound allow (provider_of pk) puny o rp r E) as (h & Hh & He & Hb & Hr).
+  destruct (assert_domain_sound allow (provider_of pk) puny to_ascii o rp r E) as (h & Hh & He & Hb & Hr).
   rewrite Hh, He. cbn [opt_eqb]. rewrite beq_refl. cbn [andb].
   assert (Hbb : boundary_b pk h r = true).
   { unfold boundary_b. destruct Hb as [Hb|[Hb|[Hdot [p Hp]]]].
     - rewrite (boundary_labels h r (or_introl Hb)). reflexivity.
     - rewrite (boundary_labels h r (or_intror Hb)). reflexivity.
-    - destruct Hr as [(_ & _ & -> & Hl)|[_ Hp']].
+    - destruct Hr as [(_ & _ & -> & Hl)|[_ (a & Ea & Hp')]].
       + rewrite Hh in Hl. injection Hl as ->. rewrite (boundary_labels LOCALHOST LOCALHOST (or_introl eq_refl)). reflexivity.
-      + destruct pk; try (exfalso; apply Hp'; apply provider_rejects_empty; [discriminate|];
-                          apply starts_with_dot_empty_label, Hdot).
+      + destruct (Hcanon r a He Ea) as [_ Hempty].
+        destruct pk; try (exfalso; apply Hp'; apply provider_rejects_empty; [discriminate|]; apply Hempty, Hdot).
         rewrite Hdot, Hp, str_suffix_app. apply orb_true_r. }
   rewrite Hbb. cbn [andb].
-  destruct Hr as [(-> & Hw & -> & Hl)|[Hs Hp]].
+  destruct Hr as [(-> & Hw & -> & Hl)|[Hs (a & Ea & Hp)]].
   - rewrite Hh in Hl. injection Hl as ->. rewrite Hw, !beq_refl. reflexivity.
-  - rewrite (provider_registrable pk r Hp). destruct (is_web o) eqn:Ew.
+  - destruct (Hcanon r a He Ea) as [-> _].
+    rewrite (provider_registrable pk canon Hp). destruct (is_web o) eqn:Ew.
     + rewrite (Hs eq_refl). cbn [negb orb andb]. apply orb_true_r.
     + cbn [negb orb andb]. apply orb_true_r.
 Qed.
